@@ -137,16 +137,25 @@ def _apply_bc(simu, mesh, coord, seed, kind):
     simu.Bc_Init()
     rng = np.random.default_rng(seed)
     bn = gm.boundary_nodes(mesh)
-    ang = rng.uniform(0, 2 * np.pi)
+    # few distinct directions: successive condition sets often constrain the same nodes (same counts) on other
+    # components, or the same number of dofs elsewhere
+    ang = (seed // 3 % 4) * np.pi / 2 + 0.3
     dv = np.array([np.cos(ang), np.sin(ang), 0.0])
     p = coord[bn] @ dv
     fixed = bn[p <= p.min() + 0.35 * (p.max() - p.min())]
     loaded = bn[p >= p.max() - 0.35 * (p.max() - p.min())]
     unk = simu.Get_unknowns()
-    ud = [float(x) for x in np.round(rng.uniform(-0.1, 0.1, len(unk)), 3)]
+    simu.add_dirichlet(loaded[-2:], [0.01], [unk[seed % len(unk)]])
+    # Dirichlet values and point loads as functions of position (evaluated on the current coordinates when entered),
+    # constants and nodal arrays for the others
+    cf = np.round(rng.uniform(-0.05, 0.05, (len(unk), 3)), 3)
+    ud = [(lambda x, y, z, c=c: c[0] + c[1] * x + c[2] * y) for c in cf]
     simu.add_dirichlet(fixed, ud, unk)
     simu.add_surfLoad(loaded, [float(x) for x in np.round(rng.uniform(-1, 1, len(unk)), 2)], unk)
     simu.add_volumeLoad(gm.used_nodes(mesh), [float(x) for x in np.round(rng.uniform(-1, 1, len(unk)), 2)], unk)
+    cp = np.round(rng.uniform(-0.5, 0.5, (len(unk), 3)), 2)
+    simu.add_neumann(loaded[:2], [(lambda x, y, z, c=c: c[0] + c[1] * x + c[2] * y) for c in cp], unk)
+    simu.add_dirichlet(fixed[:1], [coord[fixed[:1], 0] * 0.01], unk[:1])  # nodal-array form (adds to the first condition)
     return fixed.size
 
 
